@@ -571,3 +571,4 @@ HARNESSES['printf_diff_nold'] = {'san': 'asan', 'source': 'printf_diff.cpp', 're
                                  'cxxflags': ['-fno-sanitize=nonnull-attribute', '-DFRG_DONT_USE_LONG_DOUBLE', '-DVERIF_HARNESS_NAME="printf_diff_nold"']}
 PROPS['C19']['runs'].append({'harness': 'printf_diff_nold', 'quick': {'rc': rc(8000, sizes=[30, 60], workers=4)}, 'thorough': {'rc': rc(60000, sizes=[30, 60, 120], workers=8)}})
 PROPS['C19']['rule_extension'] = (PROPS['C19'].get('rule_extension') or '') + ' The harness is also built with -funsigned-char and with -DFRG_DONT_USE_LONG_DOUBLE.'
+PROPS['C08']['level_text'] = 'exhaustive over small push sequences with ties x single removals plus generated histories against a reference multiset, behavioural oracle (top/empty after every step, full drains, hook reset); held on everything generated'
